@@ -66,3 +66,68 @@ func VH_C10_embed_delete_loc() {
 	}
 	vC10Loc(vShard(n), 4, true)
 }
+
+// ---- API level: cutting at any set of positions and concatenating restores the sequence -------
+
+func vMultS(as []vAtom, x int, rev bool) int {
+	n := 0
+	for _, a := range as {
+		n += vIte(vAnd(a.rev == rev, vAnd(a.s <= x, x < a.e)), 1, 0)
+	}
+	return n
+}
+
+//verif:harness prop=C10 quick=4 thorough=8 merge=concrete timeout=1500
+//verif:bounds API level: sequence of 5 (quick) / 6 (thorough) symbolic residues, one tagged feature (range | 2-part join in any order, incl. descending/overlapping parts | complemented range | 2-part order) with symbolic coordinates and partial flags plus a source; 1 (quick) / 1..2 (thorough) cut positions anywhere in [0,L] (cuts at 0, at L and coinciding cuts included); Slice for every piece, Concat in order
+func VH_C10_slice_concat() {
+	sh := vShard(4 + 4*vTier())
+	L := 5 + vTier()
+	data := vBytes("r", L)
+	loc := vGenApiLoc("f", L, sh%4)
+	ff := FeatureSlice{}
+	ff = ff.Insert(Feature{"source", Range(0, L), vFeatTag(0)})
+	ff = ff.Insert(Feature{"gene", loc, vFeatTag(1)})
+	seq := Sequence(New(nil, ff, data))
+	c1 := vIntIn("c1", 0, L)
+	cuts := []int{c1}
+	if sh >= 4 {
+		c2 := vIntIn("c2", 0, L)
+		vAssume(c1 <= c2)
+		cuts = append(cuts, c2)
+	}
+	var pieces []Sequence
+	prev := 0
+	for _, c := range cuts {
+		pieces = append(pieces, Slice(seq, prev, c))
+		prev = c
+	}
+	pieces = append(pieces, Slice(seq, prev, L))
+	vCover("cut")
+	total := 0
+	for _, p := range pieces {
+		total += len(p.Bytes())
+	}
+	vAssert("pieces-partition-the-residues", total == L)
+	cat := Concat(pieces...)
+	got := cat.Bytes()
+	vAssert("length-restored", len(got) == L)
+	if len(got) == L {
+		for i := 0; i < L; i++ {
+			vAssert("residues-restored", got[i] == data[i])
+		}
+	}
+	// the pieces of the feature together denote exactly the residues of the original, each on its strand
+	as := vAtoms(loc)
+	var frag []vAtom
+	for _, f := range cat.Features() {
+		if f.Key == "gene" {
+			frag = append(frag, vAtoms(f.Loc)...)
+		}
+	}
+	x := vIntIn("x", 0, L)
+	vAssume(x < L)
+	vAssert("feature-pieces-fwd", vMultS(frag, x, false) == vMultS(as, x, false))
+	vAssert("feature-pieces-rev", vMultS(frag, x, true) == vMultS(as, x, true))
+	vAssert("argument-unchanged", len(seq.Bytes()) == L)
+	vObserve("npieces", len(pieces))
+}
